@@ -65,8 +65,8 @@ SATS = ["n18", "n19", "metop"]
 
 def shards(tier, seed):
     q = tier == "quick"
-    out = [{"kind": "history", "seed": seed, "shard": i, "n": 8 if q else 120} for i in range(12)]
-    out += [{"kind": "formats", "seed": seed, "shard": 12 + i, "n": 3 if q else 30} for i in range(4)]
+    out = [{"kind": "history", "seed": seed, "shard": i, "n": 8 if q else 400} for i in range(12)]
+    out += [{"kind": "formats", "seed": seed, "shard": 12 + i, "n": 3 if q else 60} for i in range(4)]
     return out
 
 
